@@ -323,10 +323,9 @@ def drive(check_id, tier, seed, replay=None):
     m["inconclusive"].extend(extra)
     if hasattr(mod, "finalize"):
         m["inconclusive"].extend(mod.finalize(m) or [])
-    # reach monitor: required functions must have been entered
-    missing = [q for q in getattr(mod, "REQUIRED_REACH", []) if q not in m["reached"]]
-    if m["reach_active"] and missing:
-        m["inconclusive"].append("required repository functions never entered: " + ", ".join(missing))
+    # reach monitor: evidence of which anchored functions the workload entered.  It is reported, not judged: the
+    # functions are internal names, and a correct refactoring that renames or inlines one must not make a check fail
+    # (DESIGN.md section 6).  What must have been reached is decided behaviourally (MIN_EVALS, class counts).
     min_evals = getattr(mod, "MIN_EVALS", {"quick": 50, "thorough": 200})[tier]
     if m["evaluations"] < min_evals:
         m["inconclusive"].append(f"only {m['evaluations']} verdicts issued (< {min_evals})")
@@ -370,7 +369,7 @@ def drive(check_id, tier, seed, replay=None):
         "observed_sets": {k: sorted(v)[:60] for k, v in m["sets"].items()},
         "observed_set_sizes": {k: len(v) for k, v in m["sets"].items()},
         "repo_functions_entered": len(m["reached"]),
-        "required_reach": {q: (q in m["reached"]) for q in getattr(mod, "REQUIRED_REACH", [])},
+        "anchor_functions_entered": {q: (q in m["reached"]) for q in getattr(mod, "REQUIRED_REACH", [])},
         "known_findings_seen": {k: m["viol_counts"].get(k, 0) for k in known_seen},
         "inconclusive": m["inconclusive"],
         "shards": len(results),
@@ -394,7 +393,9 @@ def drive(check_id, tier, seed, replay=None):
         "violations": int(n_unknown),
         "verdict": "violated" if unknown else ("inconclusive" if m["inconclusive"] else "held"),
     }
-    with open(os.path.join(VERIF, "evidence", f"{check_id}.json"), "w") as f:
+    evdir = os.environ.get("VERIF_EVIDENCE_DIR", os.path.join(VERIF, "evidence"))
+    os.makedirs(evdir, exist_ok=True)
+    with open(os.path.join(evdir, f"{check_id}.json"), "w") as f:
         json.dump(ev, f, indent=1)
     for ln in lines:
         print(ln)
